@@ -22,7 +22,9 @@ RULE = ('one run = one simulated hand (any variant, any automation subset, comme
         'the complete state must be equal, and at the end everything except deck order; (b) the same choices are run '
         'twice and must give identical logs and states - in half of the cases with an interfering table in between: another '
         'hand of the same variant with other parameters (bet sizes, stacks, mode, automations, rake) is created in the same '
-        'process, played half-way and left alive while the original decisions are executed again; (c) forks: deep copies taken at scheduler-chosen quiescent points '
+        'process, played half-way and left alive while the original decisions are executed again, and in half of the cases '
+        'with the second execution seated by the SAME game object after it has also seated a smaller table (values given '
+        'as lists in a third of the runs); (c) forks: deep copies taken at scheduler-chosen quiescent points '
         '(up to 3) are advanced interleaved with the original - frozen forks must stay bit-identical, shadow forks fed '
         'the same decisions must stay equal to the original, divergent forks must not disturb anybody and must equal '
         'a sequential replay of their own log. non-trivial = history with >= 12 operations; distinct = distinct '
@@ -33,7 +35,7 @@ ASSUMPTIONS = [
     'determinism across processes and hash seeds is measured by selftest/determinism.py (digests of this check included)',
     'deep copies are taken at quiescent points (between public calls), as game-tree construction does',
 ]
-BIAS = dict(custom_num=1, rakes=('none', 'none', 'pct', 'nfnd'))
+BIAS = dict(custom_num=1, rakes=('none', 'none', 'pct', 'nfnd'), allow_raw_lists=True)
 UNORDERED = ('deck_cards',)
 
 
@@ -165,7 +167,23 @@ def twice(ch, ctx, world, cfg, run_key):
         # created in this process, played half-way and left alive - state that leaks between State objects through a class
         # attribute, a shared default or a cache keyed too coarsely makes the second execution differ from the first
         other = interfering_table(ch, ctx, cfg, run_key)
-    w2 = World(ch2, ctx2, cfg2, [], run_key=rk, commentary_num=2)
+    reuse = None
+    if world.game is not None and ch.chance('c15.reuse_game', 1, 2):
+        # the second execution sits down at a table created from the SAME game object as the first, after that game has
+        # also seated a smaller table (a game object is documented as a reusable factory of states)
+        reuse = world.game
+        m = cfg['n'] - 1
+        if m >= 2:
+            from sim.config import conv_stack
+            small = [conv_stack(cfg, x) for x in cfg['stacks'][:m]]
+            try:
+                boot.set_run_key(run_key + '-small')
+                reuse(small if cfg.get('raw_lists') else tuple(small), m)
+            except Exception:       # noqa: BLE001 - e.g. a blind layout that needs all n seats
+                pass
+            boot.set_run_key(run_key)
+        ctx.fault('game_reused')
+    w2 = World(ch2, ctx2, cfg2, [], run_key=rk, commentary_num=2, reuse_game=reuse)
     w2.run()
     if other is not None:
         boot.set_run_key(other.run_key)
